@@ -353,7 +353,9 @@ def rule_flag_combiners(repo: Repo) -> List[Ob]:
                 obs.append(Ob("H2-flags", key, f.relpath, call.lineno, f.qualname, False,
                               f"`{name}` is overwritten by each {call_name(call)}(...) in the loop and returned: only the last sub-result's exactness survives, a rounded earlier one is reported as exact"))
                 continue
-            if rets:
+            if any(kind != "return" for kind in reached):
+                ok = True      # the flag is handed to the printer that reports exactness
+            elif rets:
                 ok = True
                 for cl, kind, e in names_per_sink:
                     if kind != "return":
@@ -473,6 +475,28 @@ def rule_lossy_sources(repo: Repo) -> List[Ob]:
                                 else:
                                     computed = True
                     why = "the returned flag can never become False on the path through the approximation"
+            if not ok and f.cls is None and not any(isinstance(r.value, ast.Tuple) and len(r.value.elts) == 2 for r in rets):
+                # a module-level helper (possibly a generator) that hands the approximated values to a caller in the same module:
+                # the caller is the function that owes the flag
+                callers = [g for g in repo.functions if g.module is f.module and g.node is not f.node
+                           and any(isinstance(c0, ast.Call) and call_name(c0) == f.name for c0 in walk_no_nested(g.node))]
+                def carries_flag(g):
+                    gd = Defs(g.node, g.params()[0] if g.params() else None)
+                    for r0 in walk_no_nested(g.node):
+                        if isinstance(r0, ast.Return) and isinstance(r0.value, ast.Tuple) and len(r0.value.elts) == 2:
+                            fl0 = r0.value.elts[1]
+                            if isinstance(fl0, ast.Constant):
+                                if fl0.value is False:
+                                    return True
+                                continue
+                            rts0 = gd.roots(fl0)
+                            if any(x == "call:" + f.name or x.endswith("." + f.name) for x in rts0 if x.startswith("call:")):
+                                return True
+                    return False
+                if callers and all(carries_flag(g) for g in callers):
+                    obs.append(Ob("H1-lossy", key, f.relpath, s.lineno, f.qualname, True,
+                                  f"`{src(s)[:40]}` is handed to {', '.join(g.name for g in callers)}, which derive(s) the returned exactness flag from it"))
+                    continue
             if last_wins is not None:
                 obs.append(Ob("H1-lossy", key, f.relpath, last_wins[0].lineno, f.qualname, False,
                               f"the returned flag is overwritten with `{src(last_wins[1])[:40]}` in every loop iteration: only the last item's exactness survives, an earlier approximated one is reported as exact"))
@@ -758,7 +782,30 @@ def rule_vocabulary(repo: Repo) -> List[Ob]:
         all_l = set().union(*lits_by_name.values()) | inline if lits_by_name or inline else set()
         if {"Sin", "Cos"} & all_l:
             mix = (t, all_l)
-    ok = mix is not None and {"Sin", "Cos", "Exp"} <= mix[1] and isinstance(mix[0].ast, ast.BoolOp) and isinstance(mix[0].ast.op, ast.And)
+    def conjunctive(t, raise_on) -> Optional[bool]:
+        """does the test lead to `raise` exactly when ALL its leaf conditions hold?  (truth table over the leaves; spelling-independent)"""
+        leaves = []
+
+        def ev(e, env):
+            if isinstance(e, ast.UnaryOp) and isinstance(e.op, ast.Not):
+                return not ev(e.operand, env)
+            if isinstance(e, ast.BoolOp):
+                vals = [ev(v, env) for v in e.values]
+                return all(vals) if isinstance(e.op, ast.And) else any(vals)
+            k = src(e)
+            if k not in leaves:
+                leaves.append(k)
+            return env.get(k, False)
+        ev(t, {})
+        if not (2 <= len(leaves) <= 4):
+            return None
+        import itertools
+        raising = [vals for vals in itertools.product([False, True], repeat=len(leaves)) if ev(t, dict(zip(leaves, vals))) == raise_on]
+        return raising == [tuple([True] * len(leaves))]
+    raise_on = next((r for t0, r in c.raise_guards() if mix is not None and t0 is mix[0]), True)
+    # raise_guards reports the outcome that does NOT raise or the one that does, depending on the helper: accept either polarity that is conjunctive
+    conj = None if mix is None else (conjunctive(mix[0].ast, True) or conjunctive(mix[0].ast, False))
+    ok = mix is not None and {"Sin", "Cos", "Exp"} <= mix[1] and bool(conj)
     obs.append(Ob("D3-vocabulary", "program/assignment/functional_assignment.py::FunctionalAssignment.get_func_moment::mixing-guard", f.relpath,
                   mix[0].lineno if mix else f.node.lineno, f.qualname, ok,
                   "a product of trigonometric and exponential factors of one draw is refused" if ok else
@@ -900,20 +947,22 @@ def rule_simulator(repo: Repo) -> List[Ob]:
     if not body_calls:
         obs.append(inconclusive("S-simulator", key, rp, sim.node.lineno, "Simulator", "no `execute(<program>.loop_body, ...)` call found in the simulator"))
     else:
-        mm, call = body_calls[0]
-        cg = cfg_of(mm.node)
-        tests = controlling_tests(cg, node_for(cg, call))
-        guard_tests = [(t, reach) for t, reach in tests if "loop_guard" in src(t.ast) and "evaluate" in src(t.ast)]
-        if not guard_tests:
-            obs.append(Ob("S-simulator", key, rp, call.lineno, mm.qualname, False,
-                          "the loop body is executed without testing the loop guard on the current state: the state does not freeze when the guard is false"))
-        else:
-            t, reach = guard_tests[0]
-            negated = isinstance(t.ast, ast.UnaryOp) and isinstance(t.ast.op, ast.Not)
-            ok = (reach is True and not negated) or (reach is False and negated)
-            obs.append(Ob("S-simulator", key, rp, call.lineno, mm.qualname, ok,
-                          "the body runs exactly when the guard holds in the current state; otherwise the previous state is kept" if ok else
-                          "the loop body runs when the guard is FALSE"))
+        verdicts = []
+        for mm, call in body_calls:
+            cg = cfg_of(mm.node)
+            tests = controlling_tests(cg, node_for(cg, call))
+            guard_tests = [(t, reach) for t, reach in tests if "loop_guard" in src(t.ast) and "evaluate" in src(t.ast)]
+            if not guard_tests:
+                verdicts.append((False, call, mm, "the loop body is executed without testing the loop guard on the current state: the state does not freeze when the guard is false"))
+            else:
+                t, reach = guard_tests[0]
+                negated = isinstance(t.ast, ast.UnaryOp) and isinstance(t.ast.op, ast.Not)
+                ok = (reach is True and not negated) or (reach is False and negated)
+                verdicts.append((ok, call, mm, "the body runs exactly when the guard holds in the current state; otherwise the previous state is kept" if ok else
+                                 "the loop body runs when the guard is FALSE"))
+        bad = [v for v in verdicts if not v[0]]
+        okv, call, mm, msg = (bad or verdicts)[0]
+        obs.append(Ob("S-simulator", key, rp, call.lineno, mm.qualname, okv, msg))
     # every run starts with the initial block on an empty state
     f = repo.function(rp, "Simulator.simulate")
     key = f"{rp}::Simulator.simulate::initial"
